@@ -24,6 +24,7 @@ mod c18;
 mod c19;
 mod c20;
 mod mac;
+mod oracle;
 mod macgen;
 mod util;
 
